@@ -10,5 +10,7 @@ GROUPS = [
  _s("rpdo_clear", "CORPdoClear", 2, ["service/cia301/co_pdo.c"], {"C20": "quick", "C13": "quick", "C01": "quick"}),
  _s("sync_restart", "COSyncRestart", 3, ["service/cia301/co_sync.c"], {"C12": "quick", "C16": "quick", "C01": "quick"}),
  _s("emcy_init", "COEmcyInit", 4, ["service/cia301/co_emcy.c", "object/cia301/co_emcy_hist.c"], {"C15": "quick", "C20": "quick", "C01": "quick"}, defs=["VW_OP=4", "CO_EMCY_N=8"]),
+ _s("obj_user_abort", "COObjTypeUserSDOAbort", 6, ["core/co_obj.c"], {"C04": "quick", "C01": "quick"}),
+ _s("obj_init", "COObjInit", 7, ["core/co_obj.c"], {"C06": "quick", "C01": "quick"}),
  _s("nmt_get", "CONmtGetMode/CONmtGetNodeId", 5, ["core/co_nmt.c"], {"C09": "quick", "C01": "quick"}),
 ]
